@@ -6,7 +6,7 @@ Contract kinds
          symbolic-length loops are paired and justified by loop-body equivalence obligations
   Lemma  a property-level statement over reference functions / contracts (Post or Equiv between two spec-level functions)
 """
-import ast, time
+import ast, time, os
 import z3
 from . import z as Z
 from .z import fn, const, R, B, I, SeqR, Tok
@@ -324,14 +324,18 @@ class Verifier:
         for p in outs_i:
             comps_p = self._final_terms(exi, p, c.observe, None) + (extra_i(p) if extra_i else [])
             disj = []
+            pset = {f.get_id() for f in p.st.pc}
             for q, comps_q in prepared_r:
                 if kind_of(q) != kind_of(p) or len(comps_q) != len(comps_p):
                     continue
                 eqs = [a == b for a, b in zip(comps_p, comps_q)] + self._state_eq(p.st, q.st, c.observe)
-                disj.append(z3.And(*(q.st.pc + eqs)))
-            site = self._site(p)
-            counts[site] = counts.get(site, 0) + 1
-            name = '%s::%s[%s@%s]#%d' % (label, what, kind_of(p), site, counts[site])
+                disj.append(z3.And(*([f for f in q.st.pc if f.get_id() not in pset] + eqs)))
+            name = '%s::%s[%s]' % (label, what, getattr(p, 'tag', None) or kind_of(p))
+            if os.environ.get('DEBUG_MATCH') and os.environ['DEBUG_MATCH'] in name:
+                print('IMPL PATH', name, [e for e in p.st.events], 'candidates', len(disj))
+                for q, comps_q in prepared_r:
+                    if kind_of(q) == kind_of(p):
+                        print('    REF', getattr(q, 'tag', None), [e for e in q.st.events])
             self.add(name, c.func, 'same outcome, events and modelled heap as %s' % c.ref, p.st.pc, z3.Or(*disj) if disj else z3.BoolVal(False), what)
 
     def _site(self, o):
